@@ -163,8 +163,8 @@ theorem underived_cache_diverges :
 
   The volatile cell 0 caches the VALUE STORED UNDER KEY 9 of the tree. `crBoot` recomputes it from
   the persisted tree (`t.get 9`). The EndBlock hook of height `h`, aimed at the deliver state, writes
-  `h` under key 9 and, if the write was served, refreshes the cell with `.vset` (a write the block
-  gas meter refuses leaves both as they are). The cell is consensus-relevant: the BeginBlock hook
+  `h` under key 9 and, if the write was served — it always is: the hook runs on the unmetered view
+  of the deliver state — refreshes the cell with `.vset`. The cell is consensus-relevant: the BeginBlock hook
   copies `cell + 100` into key 8 and every ProcessDeliver copies it into key 2 — a stale cell would
   change the commit log (this is what goes wrong in `underived_cache_diverges`, where start-up does
   not rebuild the cell). Validate burns gas and refuses transaction 0; ProcessDeliver reads the
@@ -173,7 +173,7 @@ theorem underived_cache_diverges :
 
   `VolDerived` is PROVED for these handlers, for every node and every block (`cr_volDerived`): no
   deliver-path program writes key 9 (`cr_avoids9`), so what Commit writes under key 9 is what the
-  hook put there, or what the tree held before when the hook's write was refused. -/
+  hook put there. -/
 
 def crH : Handlers Nat Nat Nat Unit Nat Nat Nat :=
   { hash := id,
@@ -256,23 +256,14 @@ theorem cr_volDerived : VolDerived exCfg crBoot crH := by
     rw [← hm]; exact deliverAll_sess_none exCfg crH e txs _ hb0.2.2.2
   have mk : 9 ∉ akeys m.dlv.cache := by
     rw [← hm]; exact deliverAll_keyFree exCfg crH e 9 cr_avoids9 txs _ hbk
-  -- EndBlock: the hook's write is refused (nothing changes) or lands in the block cache and the cell
-  have hend : ((endBlock exCfg crH e m).dlv.cache = m.dlv.cache ∧ (endBlock exCfg crH e m).vol = m.vol) ∨
-      ((endBlock exCfg crH e m).dlv.cache = upsert m.dlv.cache 9 (m.height + 1) ∧
-       (endBlock exCfg crH e m).vol = m.vol.set 0 (some (m.height + 1))) := by
-    have hc := set_nosess_cases exCfg (m.dlv.toSt m.tree) 9 (m.height + 1) ms
+  -- EndBlock: the hook runs unmetered, its write lands in the block cache and the cell is refreshed
+  have hend : (endBlock exCfg crH e m).dlv.cache = upsert m.dlv.cache 9 (m.height + 1) ∧
+      (endBlock exCfg crH e m).vol = m.vol.set 0 (some (m.height + 1)) := by
+    have hc := set_nosess_unmetered exCfg (m.dlv.unmetered m.tree) ms rfl 9 (m.height + 1)
       (by show m.height + 1 ≠ 0; omega)
     simp only [endBlock, crH, List.foldl_cons, List.foldl_nil, runHook, Bool.true_or, if_true, Prog.run]
-    generalize (m.dlv.toSt m.tree).set exCfg 9 (m.height + 1) = r at hc
-    rcases hc with hc | ⟨h1, h2⟩
-    · subst hc
-      left
-      exact ⟨rfl, rfl⟩
-    · obtain ⟨r1, r2⟩ := r
-      simp only at h1 h2
-      subst h1
-      right
-      exact ⟨h2, rfl⟩
+    rw [hc]
+    exact ⟨rfl, rfl⟩
   have hfv : (execBlock exCfg crH e n txs).1.vol = (endBlock exCfg crH e m).vol := by
     rw [← hm]; rfl
   rw [hfv, ht]
@@ -281,12 +272,10 @@ theorem cr_volDerived : VolDerived exCfg crBoot crH := by
   have hg : ∀ t : Tree Nat Nat, t.commit.get 9 = t.get 9 := by
     intro t; unfold Tree.get; rw [(commit_fields t).1]
   rw [hg]
-  rcases hend with ⟨h1, h2⟩ | ⟨h1, h2⟩
-  · rw [h1, h2, mv, hv, writeInto_get_of_not_mem exCfg _ _ 9 mk]
-    rfl
-  · rw [h1, h2, mv, hv, writeInto_get_upsert_new exCfg _ _ 9 _ mk (by show m.height + 1 ≠ 0; omega)]
-    unfold Vol.set crBoot
-    by_cases hc : c = 0 <;> simp [hc]
+  obtain ⟨h1, h2⟩ := hend
+  rw [h1, h2, mv, hv, writeInto_get_upsert_new exCfg _ _ 9 _ mk (by show m.height + 1 ≠ 0; omega)]
+  unfold Vol.set crBoot
+  by_cases hc : c = 0 <;> simp [hc]
 
 theorem crN_boundary : crN.AtBoundary ∧ crN.tree.WF ∧ crN.vol = crBoot crN.tree := by
   refine ⟨⟨rfl, rfl, rfl, rfl, rfl⟩, ?_, rfl⟩
@@ -343,7 +332,8 @@ theorem crash_history_final_node :
   decide +kernel
 
 /-- the crashes do destroy something. Mid-block (block 1, two transactions delivered) the block
-    cache holds three pending writes and 272 units of gas are consumed: the restart has an empty
+    cache holds three pending writes and 52 units of gas are consumed (25 + 27 by the two
+    transactions; the BeginBlock hook's write is charged to nobody): the restart has an empty
     cache. After EndBlock of block 2 the hook has already moved the volatile cell to 2 while the tree
     is still at version 1: the restart recomputes the cell from the tree (1), and this is what makes
     the replayed BeginBlock hook write 101 again, not 102 -/
@@ -351,7 +341,7 @@ theorem crash_points_facts :
     let m1 := midBlock exCfg crH () crN [5, 9, 0] 2 false
     let n1 := (execBlock exCfg crH () crN [5, 9, 0]).1
     let m2 := midBlock exCfg crH () n1 [7, 3] 2 true
-    m1.dlv.cache = [(8, 100), (1, 5), (2, 100)] ∧ m1.dlv.gas = ⟨10000, 272⟩ ∧
+    m1.dlv.cache = [(8, 100), (1, 5), (2, 100)] ∧ m1.dlv.gas = ⟨10000, 52⟩ ∧
     (crash crBoot crH m1).dlv.cache = [] ∧ (crash crBoot crH m1).dlv.gas = ⟨10000, 0⟩ ∧
     m2.dlv.cache = [(8, 101), (1, 15), (2, 101), (9, 2)] ∧ m2.vol 0 = some 2 ∧
     m2.tree.working = [(8, 100), (1, 5), (2, 100), (9, 1)] ∧
